@@ -30,6 +30,7 @@
 
 import abc
 import inspect
+import threading
 from enum import Enum
 from types import FrameType
 
@@ -85,6 +86,9 @@ class LocationAction(object):
         self.__stats = TracepointExecutionStats()
         self.__action_type = action_type
         self.__location: Optional['Location'] = None
+        self.__lock = threading.Lock()
+        # the timestamps of the hits that have passed can_trigger, and are still being processed
+        self.__claimed: List[int] = []
 
     @property
     def id(self) -> str:
@@ -159,26 +163,32 @@ class LocationAction(object):
         """
         Check if the tracepoint can trigger.
 
-        This is to check the config. e.g. fire count, fire windows etc.
+        This is to check the config. e.g. fire count, fire windows etc. A hit that can trigger is claimed, until it is
+        recorded (record_triggered) or given back (release). Claimed hits count towards the limits, so it does not
+        matter how many threads reach the tracepoint while a collection is still running.
+
         :param ts: the time the tracepoint has been triggered
         :return: true, if we should collect data; else false
         """
-        # Have we exceeded the fire count?
-        if self.fire_count != -1 and self.fire_count <= self.__stats.fire_count:
-            return False
-
-        # Are we in the time window?
-        if not self.__window.in_window(ts):
-            return False
-
-        # Have we fired too quickly?
-        last_fire = self.__stats.last_fire
-        if last_fire != 0:
-            time_since_last = ts - last_fire
-            if time_since_last < self.__fire_period_ns():
+        with self.__lock:
+            # Have we exceeded the fire count?
+            fired = self.__stats.fire_count + len(self.__claimed)
+            if self.fire_count != -1 and self.fire_count <= fired:
                 return False
 
-        return True
+            # Are we in the time window?
+            if not self.__window.in_window(ts):
+                return False
+
+            # Have we fired too quickly?
+            last_fire = max([self.__stats.last_fire] + self.__claimed)
+            if last_fire != 0:
+                time_since_last = ts - last_fire
+                if time_since_last < self.__fire_period_ns():
+                    return False
+
+            self.__claimed.append(ts)
+            return True
 
     def record_triggered(self, ts):
         """
@@ -188,7 +198,22 @@ class LocationAction(object):
 
         :param ts: the time in nanoseconds
         """
-        self.__stats.fire(ts)
+        with self.__lock:
+            self.__release(ts)
+            self.__stats.fire(ts)
+
+    def release(self, ts):
+        """
+        Give back a hit that could trigger, but was not processed (e.g. the condition did not match).
+
+        :param ts: the time in nanoseconds
+        """
+        with self.__lock:
+            self.__release(ts)
+
+    def __release(self, ts):
+        if ts in self.__claimed:
+            self.__claimed.remove(ts)
 
     def __get_int(self, name: str, default_value: int):
         try:
